@@ -5,7 +5,7 @@ PAT=${1:-*}; J=${2:-4}
 mkdir -p /tmp/st
 one() {
   d=$1; n=$(basename $d .diff)
-  checks=$(python3 -c "import json;print(' '.join(json.load(open('/verif/controls/quiet/$n.json'))['checks']))")
+  checks=$(python3 -c "import json;print(' '.join(json.load(open('${VERIF_HOME:-/verif}/controls/quiet/$n.json'))['checks']))")
   [ -n "${CHECKS:-}" ] && checks="$CHECKS"
   WT=/tmp/st/ctl.$n.$$
   git -C /repo worktree add -q --detach $WT HEAD || exit 9
@@ -19,4 +19,4 @@ one() {
   git -C /repo worktree remove --force $WT; rm -rf /tmp/st/ev.ctl.$n.$$
 }
 export -f one
-ls /verif/controls/quiet/$PAT.diff | xargs -P $J -I{} bash -c 'one {}'
+ls ${VERIF_HOME:-/verif}/controls/quiet/$PAT.diff | xargs -P $J -I{} bash -c 'one {}'
